@@ -1,5 +1,6 @@
 import Proofs.Lemmas.Fault
 import Zrnt.Gen.FaultSites
+import Zrnt.Fault.Baseline
 /-!
 # C18 — cancellation and execution-engine faults always surface as errors
 
@@ -31,6 +32,9 @@ theorem engine_verdicts_map_to_errors :
     (∀ e ∈ engineCalls, e.fn = "ProcessExecutionPayload" → e.shape = .guardError) ∧
     (∀ e ∈ engineCalls, e.shape = .guardForward ∨ e.shape = .directReturn → e.fn = "VerifyAndNotifyNewPayload") := by
   decide
+
+/-- every sub-transition that polled the context at its head on the pinned tree still does -/
+theorem head_polls_kept : ∀ f ∈ Zrnt.Fault.headPollBaseline, f ∈ headPolls := by decide +kernel
 
 /-- non-vacuity: the tables are not empty (36 polls, 10 engine call sites on the pinned tree) -/
 example : polls.length ≥ 30 ∧ guards.length ≥ 300 ∧ engineCalls.length ≥ 10 := by decide +kernel
